@@ -1,7 +1,148 @@
-//! c17 oracle (filled in later)
-use crate::inbound::In;
-use crate::simnet::Violation;
-pub fn step_check(_s: &In) -> Result<(), Violation> { Ok(()) }
-pub fn final_check(_s: &In) -> Result<(), Violation> { Ok(()) }
+//! C17: MQTT 5 topic aliases always resolve to the right topic.
+use std::collections::HashMap;
+use std::time::Duration;
 
-pub fn configs(_tier: crate::check::Tier) -> Vec<crate::inbound::InCfg> { Vec::new() }
+use crate::check::{Check, Tier};
+use crate::inbound::*;
+use crate::inbound_oracles::handler_records;
+use crate::refmqtt::{PVal, Pkt, Ver};
+use crate::simnet::{ExploreCfg, Violation};
+use crate::world::*;
+
+pub fn step_check(_s: &In) -> Result<(), Violation> {
+    Ok(())
+}
+
+fn viol(s: &In, clause: &str, wit: String, msg: String) -> Violation {
+    Violation::new(clause, format!("{}{} {}", s.cfg.ep.label(), if s.cfg.ep.router { "+router" } else { "" }, wit), format!("{msg}; {}", s.detail()))
+}
+
+pub const ALIAS_MAX: u16 = 2;
+
+pub fn final_check(s: &In) -> Result<(), Violation> {
+    let hs = handler_records(s);
+    let mut map: HashMap<u16, String> = HashMap::new();
+    let mut expect_stop = false;
+    let mut hidx = 0usize;
+    for (i, snt) in s.sent.iter().enumerate() {
+        let Some(Pkt::Publish { topic, props, payload, .. }) = &snt.pkt else { continue };
+        let alias = props.iter().find_map(|(id, v)| if *id == 0x23 { if let PVal::U16(a) = v { Some(*a) } else { None } } else { None });
+        // reference resolution
+        let resolved: Result<String, &'static str> = match alias {
+            None => Ok(topic.clone()),
+            Some(a) if topic.is_empty() => match map.get(&a) {
+                Some(t) => Ok(t.clone()),
+                None => Err("alias was never bound on this connection"),
+            },
+            Some(a) => {
+                if a > ALIAS_MAX && !map.contains_key(&a) {
+                    Err("alias exceeds the advertised Topic Alias Maximum")
+                } else {
+                    map.insert(a, topic.clone());
+                    Ok(topic.clone())
+                }
+            }
+        };
+        match resolved {
+            Err(why) => {
+                // must end the connection with a protocol error and never reach a handler
+                if hs.iter().any(|h| h.payload.first() == payload.first() && !payload.is_empty()) {
+                    return Err(viol(s, "bad-alias-delivered", why.to_string(), format!("PUBLISH #{i} ({why}) reached the handler")));
+                }
+                expect_stop = true;
+                break;
+            }
+            Ok(t) => {
+                let Some(h) = hs.get(hidx) else {
+                    return Err(viol(s, "not-delivered", "valid alias use".into(), format!("PUBLISH #{i} (resolves to {t:?}) never reached a handler")));
+                };
+                hidx += 1;
+                // router mode prefixes the topic with the resource handler's tag
+                let (tag, seen) = match h.topic.split_once(':') {
+                    Some((tg, rest)) if s.cfg.ep.router && tg.len() == 1 => (tg.to_string(), rest.to_string()),
+                    _ => (String::new(), h.topic.clone()),
+                };
+                if seen != t || h.payload.first() != payload.first() {
+                    return Err(viol(
+                        s,
+                        "wrong-topic",
+                        format!("alias {alias:?} topic {topic:?}"),
+                        format!("PUBLISH #{i} must resolve to {t:?} but the handler saw {seen:?}"),
+                    ));
+                }
+                if s.cfg.ep.router && s.cfg.ep.role == Role::Server {
+                    let want = match t.as_str() {
+                        "a" => "A",
+                        "b" => "B",
+                        _ => "D",
+                    };
+                    if tag != want {
+                        return Err(viol(s, "wrong-route", format!("alias {alias:?} topic {topic:?}"), format!("PUBLISH #{i} resolves to {t:?} and must be routed to {want} but went to {tag}")));
+                    }
+                }
+            }
+        }
+    }
+    let stops = s.conn.log.stops();
+    if expect_stop {
+        let observable = s.cfg.ep.role == Role::Server || !s.cfg.ep.router;
+        if observable && !stops.iter().any(|x| x.starts_with("Stop:Proto")) {
+            return Err(viol(s, "bad-alias-not-refused", "no protocol error".into(), format!("invalid alias use did not end the connection with a protocol error (stops {stops:?})")));
+        }
+        if !observable && !s.conn.done() {
+            return Err(viol(s, "bad-alias-not-refused", "connection alive".into(), "invalid alias use did not end the connection".into()));
+        }
+    } else if !stops.is_empty() {
+        return Err(viol(s, "valid-alias-refused", "unexpected stop".into(), format!("valid alias history ended the connection: {stops:?}")));
+    }
+    Ok(())
+}
+
+pub fn configs(tier: Tier) -> Vec<InCfg> {
+    let mut v = Vec::new();
+    for role in [Role::Server, Role::Client] {
+        for router in [false, true] {
+            let mut ep = EpCfg::new(Ver::V5, role);
+            ep.router = router;
+            ep.handler_auto = true;
+            ep.max_topic_alias = ALIAS_MAX;
+            let mut alphabet = Vec::new();
+            for topic in [1u8, 2, 3] {
+                for alias in [0u16, 1, 2, 3] {
+                    if topic == 3 && alias == 0 {
+                        continue; // empty topic without alias: not part of the statement
+                    }
+                    alphabet.push(T::Pub { qos: 0, id: 0, len: 1, topic, alias });
+                }
+            }
+            v.push(InCfg {
+                ep,
+                connect_props: vec![],
+                alphabet,
+                prologue: vec![],
+                max_len: if tier == Tier::Quick { 4 } else { 5 },
+                outcomes: vec![GateOutcome::Ok],
+                poutcomes: vec![GateOutcome::Ok],
+                cork: false,
+                judge: J_C17,
+                app_sends: vec![],
+                skip_connect: false,
+                known: vec![],
+            });
+        }
+    }
+    v
+}
+
+pub fn run(tier: Tier) -> i32 {
+    let mut ck = Check::new("C17", tier, Duration::from_secs(if tier == Tier::Quick { 50 } else { 1500 }));
+    let ecfg = ExploreCfg { max_dev: if tier == Tier::Quick { 0 } else { 1 }, max_execs: if tier == Tier::Quick { 400_000 } else { 10_000_000 }, ..Default::default() };
+    for (i, c) in configs(tier).iter().enumerate() {
+        ck.explore::<In>("inbound", i, c, &ecfg);
+    }
+    // bindings do not leak between connections
+    crate::c17x::two_connections(&mut ck, tier);
+    ck.rule = "v5 server and v5 client, each with a plain handler and with the topic router (resources a, b + default): every sequence of up to 4 (quick) / 5 (thorough) QoS 0 publishes over topic in {a, b, empty} x alias in {none, 1, 2, 3} with Topic Alias Maximum 2; reference HashMap per connection decides the resolved topic, the resource handler, or that the connection must end with a protocol error; plus a two-connection world where connection B binds the aliases connection A then uses unbound".into();
+    ck.assumptions = vec!["FIFO task order of ntex-rt; nondeterminism = timing of environment events (DESIGN 2.4)".into()];
+    ck.finish()
+}
